@@ -56,7 +56,7 @@ fn cli_binary() -> Result<PathBuf, String> {
   let root = crate::proto::verif_root();
   let target = std::env::var("VERIF_CLI_TARGET").unwrap_or_else(|_| format!("{root}/harness/target/cli"));
   let out = Command::new("cargo")
-    .args(["build", "--offline", "-j", "6", "-p", "searchlite-cli", "--manifest-path", "/repo/Cargo.toml", "--target-dir", &target])
+    .args(["build", "--offline", "-j", "6", "-p", "searchlite-cli", "--manifest-path", &format!("{}/Cargo.toml", std::env::var("VERIF_REPO").unwrap_or_else(|_| "/repo".to_string())), "--target-dir", &target])
     .current_dir(&root)
     .env("CARGO_NET_OFFLINE", "true")
     .env_remove("RUSTFLAGS")
